@@ -53,14 +53,21 @@ def single_value(win, typ, size, ua_name, ua, ws):
             kw["userAlphabet"] = dict(ua)
         else:
             kw["alphabetSize"] = size
-        arr = np.asarray(SP(win).get_linear_complexity(**kw))
-        r = _single[key] = (arr.shape, float(arr[1][0]) if arr.shape == (2, 1) else None)
+        try:
+            arr = np.asarray(SP(win).get_linear_complexity(**kw))
+            r = (arr.shape, float(arr[1][0]) if arr.shape == (2, 1) else None)
+        except Exception as e:  # noqa
+            r = ("raised %r" % e, None)
+        _single[key] = r
         if len(_single) > 400000:
             _single.clear()
     return r
 
 
-def check_call(seq, typ, size, ua_name, ua, w, s, ws, case, out):
+_byred = {}
+
+
+def check_call(seq, typ, size, ua_name, ua, w, s, ws, case, out, obj=None):
     from localcider.sequenceParameters import SequenceParameters as SP
     N = len(seq)
 
@@ -74,7 +81,7 @@ def check_call(seq, typ, size, ua_name, ua, w, s, ws, case, out):
         kw["alphabetSize"] = size
     tag = "%s %s size=%s ua=%s w=%d s=%d ws=%d" % (seq, typ, size, ua_name, w, s, ws)
     try:
-        arr = SP(seq).get_linear_complexity(**kw)
+        arr = (obj if obj is not None else SP(seq)).get_linear_complexity(**kw)
     except Exception as e:  # noqa
         if w <= N:
             v("rejects-valid-call", "%s raised %r" % (tag, e))
@@ -102,6 +109,17 @@ def check_call(seq, typ, size, ua_name, ua, w, s, ws, case, out):
             continue
         if not core.close(vals[k], sv, 1e-12, 1e-13):
             v("locality", "%s: value %d is %r but the window %s alone gives %r" % (tag, k, float(vals[k]), win, sv))
+        # "after alphabet reduction": windows with the same reduced string must have the same value
+        red, A = reduce_ref(win, size, ua)
+        rk = (red, typ, size, ua_name, ws)
+        first = _byred.get(rk)
+        if first is None:
+            if len(_byred) > 400000:
+                _byred.clear()
+            _byred[rk] = (win, float(vals[k]))
+        elif not core.close(vals[k], first[1], 1e-12, 1e-13):
+            v("depends-on-more-than-reduced-window", "%s: window %s and window %s both reduce to %s but give %r and %r"
+              % (tag, win, first[0], red, float(vals[k]), first[1]))
         if typ == "WF":
             red, A = reduce_ref(win, size, ua)
             h = entropy(red, A)
@@ -119,12 +137,14 @@ def check_case(case):
         N = len(seq)
         uas = dict(user_alphabets())
         confs = [(sz, None, None) for sz in case["sizes"]] + [(20, n, uas[n]) for n in case["uas"]]
+        from localcider.sequenceParameters import SequenceParameters as SP0
+        shared = SP0(seq)     # ONE live object answers every configuration of this word (locality uses fresh objects)
         for size, ua_name, ua in confs:
             for w in range(1, N + 2):
                 for s in range(1, N + 1):
                     for typ in TYPES:
                         for ws in (range(1, 7) if typ == "LC" else (3,)):
-                            calls += check_call(seq, typ, size, ua_name, ua, w, s, ws, case, out)
+                            calls += check_call(seq, typ, size, ua_name, ua, w, s, ws, case, out, shared)
         # unknown complexity types are rejected
         from localcider.sequenceParameters import SequenceParameters as SP
         for bad in ("XX", "RHP", "", "W F", None, 5):
@@ -198,9 +218,9 @@ def run(tier, seed, t0):
         PROP, tier, seed, acc, t0,
         rule="every word over {L,K,F} of length 1..%d and over {A,S,T,D,E} of length 1..%d x {WF,LC,LZW} x alphabet sizes %s "
              "x user alphabets %s x every window 1..N+1 x every step 1..N x word sizes 1..6 (LC): shape (2,floor((N-w)/s)+1), "
-             "integral strictly increasing positions within 1..N, values in [0,1], locality (each value == the one-window profile "
+             "integral strictly increasing positions within 1..N, values in [0,1]; all configurations of a word are asked of ONE live object; locality (each value == the one-window profile "
              "of a fresh object built from that window), WF == Shannon entropy to base alphabet-size of the independently reduced "
-             "window, w>N and 6 unknown types rejected; plus every (N,w,s) with N<=%d on a periodic 20-letter sequence for shape "
+             "window, windows with equal reduced strings give equal values (all three types), w>N and 6 unknown types rejected; plus every (N,w,s) with N<=%d on a periodic 20-letter sequence for shape "
              "and position row; non-trivial = words with >=2 distinct letters" % (N1, N2, sizes, uas, NL),
         bounds={"N_LKF": N1, "N_ASTDE": N2, "sizes": sizes, "user_alphabets": uas, "lattice_N": NL},
         assumptions=["documented reduced alphabets pinned in vmc/refmodel/tables.py:REDUCED (also judged by C12)"])
